@@ -178,6 +178,18 @@ def _r4(ctx: Context, tree: str, N: Names) -> None:
                         ok = good_val and guarded and same_guards
                         detail = f"_expire_at <- {terms} under {sorted(at - guard_atoms(guards_of(st)))}"
                     rep.ob("C09.R4", fkey(tree, f, "arm-expiry"), ok, where(f, st), detail)
+                    # the connection becomes idle (and starts its keep-alive clock) exactly when its last exchange ends:
+                    # HTTP/1.1 - both h11 sides DONE; HTTP/2 - the open-stream table (the one the allocation/close pair maintains) is empty
+                    got = guard_atoms(guards_of(st))
+                    if "11" in cname:
+                        need = {"h11.DONE==self._h11_state.our_state", "h11.DONE==self._h11_state.their_state"}
+                        gok = need <= got
+                    else:
+                        need = {"not:self._events", "HTTPConnectionState.ACTIVE==self._state"}
+                        gok = need <= got
+                    rep.ob("C09.R4", fkey(tree, f, "idle-when-last-exchange-ends"), gok, where(f, st),
+                           f"IDLE store (start of the keep-alive clock) under {sorted(got)}" if gok else
+                           f"IDLE store guarded by {sorted(got)}, needs {sorted(need)}: the connection would not become idle (no expiry, no keep-alive accounting) when its last request ends, or would while one is still open")
                 elif val == "ACTIVE":
                     nact += 1
                     ok = any(isinstance(s.value, ast.Constant) and s.value.value is None and guard_atoms(guards_of(s)) == guard_atoms(guards_of(st)) for s in sibs)
@@ -229,3 +241,14 @@ def _r5(ctx: Context, tree: str, N: Names) -> None:
                 rows[f"max_connections={mc},max_keepalive={mk}"] = f"{got} (want {want})"
     rep.ob("C09.R5", fkey(tree, init, "keepalive-limit"), ok, where(init),
            "keep-alive limit folds to min(max_connections, max_keepalive_connections) over 12 configurations" if ok else f"keep-alive limit deviates: {rows}")
+
+_core_run = run
+
+
+def run(ctx: Context) -> None:  # noqa: F811
+    _core_run(ctx)
+    from . import backend
+
+    ctx.rep.rule('C09.R6', "the readability probe behind has_expired() polls the transport's OS socket on every backend, TLS or not")
+    backend.extra_info_agreement(ctx, 'C09.R6')
+    ctx.rep.explanation = (ctx.rep.explanation or '') + " R6 (transport layer): get_extra_info('is_readable') is a poll of the OS socket on every backend."
